@@ -345,7 +345,8 @@ def obs_c02(case):
     P = bytes.fromhex(case["P"])
     m, cls, mid, pbf = lay["m"], lay["cls"], lay["id"], 1 if lay["pbf"] else 0
     history.run(case.get("hist"))
-    msg, out, _ = parse_payload(m, cls, mid, pbf, P)
+    # the frames are well-formed, so checksum validation on / off must not matter: both are exercised
+    msg, out, _ = parse_payload(m, cls, mid, pbf, P, validate=0 if (len(P) + cls) % 3 == 0 else 1)
     ev = {"prop": case.get("prop", "C02"), "m": m, "cls": cls, "id": mid, "pbf": pbf, "P": list(P), "intended": lay["name"],
           "out": out, "identity": "", "attrs": [], "str": "", "strok": 0, "ftok": []}
     if msg is not None:
